@@ -107,15 +107,24 @@ def gen(rng, i, tier):
 
 
 def impl(case):
+    """CBC occasionally dead-locks inside the C library: for solver-reaching cases a watchdog thread kills the worker
+    (the case is then discarded as a solver fault and the remaining cases are resumed)"""
+    import faulthandler
+
+    if case.get("solver"):
+        faulthandler.dump_traceback_later(20, exit=True)
+    try:
+        return _impl(case)
+    finally:
+        if case.get("solver"):
+            faulthandler.cancel_dump_traceback_later()
+
+
+def _impl(case):
     from pabutools.election import satisfaction as S
     from pabutools import rules as R
 
     if case.get("solver"):
-        # CBC occasionally dead-locks inside the C library: a watchdog thread kills the worker (the case is then
-        # discarded as a solver fault and the remaining cases are resumed)
-        import faulthandler
-
-        faulthandler.dump_traceback_later(30, exit=True)
         pb.install_solver_guard()
         pb.solver_reset()
     inst, projs = pb.make_instance(case["costs"], case["budget"])
@@ -159,9 +168,6 @@ def impl(case):
            "mults": [int(satp.multiplicity(s)) for s in elems],
            "swc": [pb.ranks(r) for r in swc], "pop": [pb.ranks(r) for r in pop]}
     if case.get("solver"):
-        import faulthandler
-
-        faulthandler.cancel_dump_traceback_later()
         st = pb.solver_state()
         if st["faults"]:
             out["solver_fault"] = st["last_fault"]
